@@ -40,7 +40,9 @@ Programs == <<
   \* every list production with no element: explicit empty parameter lists, empty bodies, empty argument lists
   <<"sub", "f", "(", ")", "{", "}", "sub", "g", "(", ")", "STRING", "{", "return", "\"x\"", ";", "}", "sub", "h", "(", "STRING", "var.a", ")", "{", "}", "acl", "e", "{", "}", "table", "e", "{", "}", "backend", "e", "{", "}", "director", "e", "random", "{", "}">>,
   <<"sub", "vcl_recv", "{", "if", "(", "a", ")", "{", "}", "else", "{", "}", "f", "(", ")", ";", "call", "f", "(", ")", ";", "{", "}", "switch", "(", "a", ")", "{", "case", "\"a\"", ":", "break", ";", "case", "~", "\"a\"", ":", "break", ";", "default", ":", "break", ";", "}", "}", "backend", "b", "{", ".probe", "=", "{", "}", "}", "director", "d", "random", "{", "{", "}", "}">>,
-  \* near misses (programs 17..): one per diagnostic the parser can give that a single mutation of a valid program
+  \* case labels are expressions after their leading string / ~ ; two clauses of each kind, default between
+  <<"sub", "s", "{", "switch", "(", "a", ")", "{", "case", "\"a\"", "\"b\"", ":", "break", ";", "case", "\"a\"", "+", "\"c\"", ":", "break", ";", "default", ":", "break", ";", "case", "~", "(", "\"x\"", ")", ":", "break", ";", "case", "~", "if", "(", "a", ",", "\"y\"", ",", "\"z\"", ")", ":", "break", ";", "case", "\"d\"", "==", "\"e\"", ":", "esi", ";", "fallthrough", ";", "case", "~", "f", "(", "a", ")", ":", "break", ";", "}", "}">>,
+  \* near misses (programs 18..): one per diagnostic the parser can give that a single mutation of a valid program
   \* rarely produces - empty switch, duplicate label, two defaults, final fallthrough, clause without break, delimiter
   \* mismatch, integer overflow, bad escape, parenthesis mismatch, missing colon, statement outside a subroutine
   <<"sub", "s", "{", "switch", "(", "a", ")", "{", "}", "}">>,
@@ -54,7 +56,7 @@ Programs == <<
   <<"sub", "s", "{", "return", "(", "lookup", ";", "}", "sub", "t", "{", "return", "lookup", ")", ";", "}", "sub", "u", "{", "switch", "(", "a", ")", "{", "case", "\"a\"", "break", ";", "}", "}">>,
   <<"set", "req.http.A", "=", "\"a\"", ";", "sub", "s", "{", "break", ";", "fallthrough", ";", "}", "sub", "f", "(", "STRING", ")", "{", "}", "sub", "g", "(", "STRING", "var.a", ",", ")", "{", "}">>
 >>
-NumValid == 16
+NumValid == 17
 
 Repl == <<"{", "}", "(", ")", ";", ",", ":", ".", "=", "==", "!", "~", "+", "-", "/", "%", "&&", "||", "|", "&", "*",
           "<<", ">>", "if", "else", "elseif", "sub", "acl", "backend", "table", "director", "set", "unset", "call",
